@@ -964,6 +964,25 @@ def handleEpochKey : List String → Option String
     return if EpochKey.eqUnder v e1 e2 then "eq" else "ne"
   | _ => none
 
+/-! ## `parallel`: the work-distribution helper `utils.parallelize` (PGModel/Parallel.lean, C17) -/
+
+/-- `parallel <variant current|unorderedWithPbar> <parallelize 0|1> <pbar 0|1> <data: naturals, comma separated|-> <schedule:
+positions, comma separated|->` → the list `list(iterator)` of `parallelize(func, data, parallelize, pbar)` with `func := id`
+(so the answer shows the ORDER in which the results come back) when the pool completes its units in the order `schedule`
+(`Parallel.parallelizeCall`); `-` for the empty list.  `bad-request` unless `schedule` lists every position
+`0 … len(data)-1` exactly once (`Parallel.isSchedule`). -/
+def handleParallel : List String → Option String
+  | [v, par, pbar, data, sched] => do
+    let v ← if v == "current" then some Parallel.Variant.current
+      else if v == "unorderedWithPbar" then some Parallel.Variant.unorderedWithPbar else none
+    let par ← parseBool01? par
+    let pbar ← parseBool01? pbar
+    let data ← parseList? String.toNat? data
+    let sched ← parseList? String.toNat? sched
+    if !Parallel.isSchedule data.length sched then none
+    return showListOr toString "," (Parallel.parallelizeCall v id data par pbar sched)
+  | _ => none
+
 def handle (c : Ctx) (line : String) : Ctx × String :=
   let toks := (line.trimAscii.toString.splitOn " ").filter (· != "")
   let bad := (c, "bad-request")
@@ -1180,6 +1199,7 @@ def handle (c : Ctx) (line : String) : Ctx × String :=
   | "marginals" :: toks => (c, (handleMarginals c toks).getD "bad-request")
   | "demoobj" :: toks => (c, (handleDemoObj toks).getD "bad-request")
   | "epochkey" :: toks => (c, (handleEpochKey toks).getD "bad-request")
+  | "parallel" :: toks => (c, (handleParallel toks).getD "bad-request")
   | ["loss", kind, a, b] =>
     -- PGModel/Loss.lean: exact value of the norm losses (numpy needs equal shapes: unequal lengths are a bad request)
     match parseList? parseRat? a, parseList? parseRat? b with
